@@ -135,6 +135,9 @@ pub enum G {
     Unwrapped(Box<G>),
     // ---- repetition
     Rep(Rep),
+    /// `a.map(items).into_iter()` used as an IterParser: code 0 = collect::<Vec>, 1 = count,
+    /// 2 + n = collect_exactly::<[_; n]> (n in 0..=4)
+    IntoIter(Box<G>, u8),
     // ---- errors
     Validate(Box<G>, u32, u8),
     Recover(Box<G>, Strat),
@@ -176,7 +179,7 @@ impl G {
             Group(v) | GroupArr(v) | Choice(v) | ChoiceVec(v) | ChoiceArr(v) => v.iter().collect(),
             OrNot(a) | Not(a) | Rewind(a) | Map(a, _) | To(a, _) | Ignored(a) | Filter(a, _)
             | TryMap(a, _, _) | TryMapWith(a, _, _) | ToSlice(a) | ToSpan(a) | MapSpan(a)
-            | MapSlice(a) | Unwrapped(a) | Validate(a, _, _) | Labelled(a, _, _)
+            | MapSlice(a) | Unwrapped(a) | IntoIter(a, _) | Validate(a, _, _) | Labelled(a, _, _)
             | MapErr(a, _, _) | Memo(a) | Wrapped(a, _) | Rec(_, a) | Lazy(a) | StPush(a, _)
             | StObs(a) | WithState(a, _) | WithCtx(a, _) | MapCtx(a, _) | CxObs(a)
             | Track(a, _) => vec![a],
@@ -221,7 +224,7 @@ impl G {
             }
             OrNot(a) | Not(a) | Rewind(a) | Map(a, _) | To(a, _) | Ignored(a) | Filter(a, _)
             | TryMap(a, _, _) | TryMapWith(a, _, _) | ToSlice(a) | ToSpan(a) | MapSpan(a)
-            | MapSlice(a) | Unwrapped(a) | Validate(a, _, _) | Labelled(a, _, _)
+            | MapSlice(a) | Unwrapped(a) | IntoIter(a, _) | Validate(a, _, _) | Labelled(a, _, _)
             | MapErr(a, _, _) | Memo(a) | Wrapped(a, _) | Rec(_, a) | Lazy(a) | StPush(a, _)
             | StObs(a) | WithState(a, _) | WithCtx(a, _) | MapCtx(a, _) | CxObs(a)
             | Track(a, _) => vec![a],
@@ -333,6 +336,7 @@ impl G {
             | Unwrapped(a) | Validate(a, _, _) | Labelled(a, _, _) | MapErr(a, _, _) | Memo(a)
             | Wrapped(a, _) | Rec(_, a) | StPush(a, _) | StObs(a) | WithState(a, _)
             | WithCtx(a, _) | MapCtx(a, _) | CxObs(a) | Track(a, _) | Lazy(a) => a.must_consume(),
+            IntoIter(a, _) => a.must_consume(),
             Rep(r) => {
                 let base = !r.cfg && r.ctxb == 0 && r.lo >= 1;
                 match &r.sink {
@@ -415,6 +419,11 @@ pub fn render(g: &G) -> String {
         MapSpan(a) => format!("{}.map_with(span)", r(a)),
         MapSlice(a) => format!("{}.map_with(slice)", r(a)),
         Unwrapped(a) => format!("{}.map(Some).unwrapped()", r(a)),
+        IntoIter(a, k) => match k {
+            0 => format!("{}.map(items).into_iter().collect::<Vec>()", r(a)),
+            1 => format!("{}.map(items).into_iter().count()", r(a)),
+            n => format!("{}.map(items).into_iter().collect_exactly::<[_;{}]>()", r(a), n - 2),
+        },
         Rep(x) => {
             let mut s = match &x.sep {
                 None => format!("{}.repeated()", r(&x.item)),
@@ -553,6 +562,7 @@ pub fn wf(g: &G) -> bool {
             | WithState(a, _) | WithCtx(a, _) | MapCtx(a, _) | CxObs(a) | Track(a, _) => {
                 go(a, recs, guarded)
             }
+            IntoIter(a, k) => *k <= 6 && go(a, recs, guarded),
             Rep(r) => {
                 if !r.item.must_consume() {
                     return false;
